@@ -90,6 +90,8 @@ def oracle(M, ctx):
                 ctx.cover("same-step-zero")
     ctx.nontrivial = len(steps) >= 2 and any(any(int(s) != NONE for s in M.tasks[b].state_record_list) for (_, b, _) in M.edges)
 
+CROSSCHECK = {"thorough": 8}
+
 
 def sim(p, ctx):
     M = run_sim(p, ctx)
